@@ -253,6 +253,26 @@ def run_case(ctx, name, params):
                         model[ind.id] = snapshot(ind)
                     ops.append(("sync_all",))
                 ctx.count("store_operations")
+                if r.random() < 0.06 and model:
+                    # the run is interrupted and continued: the file is reopened in write mode by a new problem object (which
+                    # loads what is there), and synchronisation goes on with the same individuals
+                    store.destroy()
+                    p2 = hooks.make_problem(n=n, m=m, params=[dict(q) for q in p.parameters], criteria=[c.get("criteria", "minimize") for c in p.costs], name=p.name)
+                    try:
+                        store = SqliteDataStore(p2, database_name=path, mode="write", thread_safe=ts)
+                    except Exception as e:
+                        ctx.violation("reopen/exception", "reopening the store in write mode raised %r" % e, wit())
+                        return
+                    p2.data_store = store
+                    loaded = {i.id for i in p2.individuals}
+                    if loaded != set(model):
+                        ctx.violation("reopen/loaded_ids", "a store reopened in write mode loads ids %s, synchronised were %s"
+                                      % (sorted(loaded)[:8], sorted(model)[:8]), wit())
+                        return
+                    p2.individuals[:] = list(p.individuals)      # the run continues with its own objects
+                    p = p2
+                    ops.append(("reopen_in_write_mode",))
+                    ctx.count("reopens_in_write_mode")
                 if r.random() < 0.15 and model:
                     if not ts:
                         store._conn.commit() if store._conn else None
